@@ -50,7 +50,7 @@ def config_strategy(flavour="mixed"):
             "group": group, "every_n": draw(st.sampled_from([0, 1, 3])) if group else None, "every_ms": draw(st.sampled_from([0, 0, 500])) if group else None,
             "buffer": buf, "max_buffer": maxbuf, "retry_init": init, "retry_max": draw(st.sampled_from([init, round(init * 1.3, 4), round(init * 2.0, 4), 0.5 if init <= 0.5 else 1.0, 30.0])),
             "max_attempts": draw(st.sampled_from([0, 0, 1, 2, 3, 5])), "reset": draw(st.sampled_from([None, None, -2, -1])),
-            "procs": draw(st.lists(st.sampled_from(["sync_ok"] * 6 + ["async", "async", "async", "sync_raise", "stop_inside", "commit_inside"]), max_size=14)),
+            "procs": draw(st.lists(st.sampled_from(["sync_ok"] * 6 + ["async", "async", "async", "sync_raise", "sync_raise_cancelled", "stop_inside", "commit_inside"]), max_size=14)),
         }
 
     return cfg()
@@ -186,6 +186,12 @@ class CONSEngine(Engine):
             inv.state = "failed"
             inv.done_evseq = self.evseq
             raise ValueError("processor failure #%d" % inv.no)
+        if mode == "sync_raise_cancelled":
+            # the application's own code may fail with CancelledError (e.g. a timeout it put on an inner Deferred): still a failure
+            inv.state = "failed"
+            inv.done_evseq = self.evseq
+            self.labels.add("processor-failed-with-CancelledError")
+            raise defer.CancelledError("processor failure #%d (the application's own cancellation)" % inv.no)
         if mode == "async":
             def cancelled(d):
                 inv.state = "cancelled"
@@ -324,7 +330,7 @@ class CONSEngine(Engine):
         if op == "start":
             return ["start", draw(st.sampled_from(["earliest", "latest", "num", "num", "committed", "committed"])), draw(st.integers(0, 40))]
         if op == "proc":
-            return ["proc", draw(st.integers(0, 3)), draw(st.sampled_from([True, True, True, False]))]
+            return ["proc", draw(st.integers(0, 3)), draw(st.sampled_from([True, True, True, True, False, "cancelled"]))]
         if op == "append":
             return ["append", draw(st.booleans()), draw(st.integers(1, 5)), draw(st.sampled_from([0, 3, 10, 40, 120, 700]))]
         if op == "truncate":
@@ -444,9 +450,15 @@ class CONSEngine(Engine):
             inv = pend[step[1] % len(pend)]
             self.evseq += 1
             inv.done_evseq = self.evseq
-            if step[2]:
+            if step[2] is True or step[2] == 1:
                 inv.state = "ok"
                 inv.d.callback(None)
+            elif step[2] == "cancelled":
+                from twisted.internet import defer
+
+                inv.state = "failed"
+                self.labels.add("processor-failed-with-CancelledError")
+                inv.d.errback(defer.CancelledError("async processor failure #%d (the application's own cancellation)" % inv.no))
             else:
                 inv.state = "failed"
                 inv.d.errback(ValueError("async processor failure #%d" % inv.no))
@@ -1008,7 +1020,24 @@ class CONSEngine(Engine):
                 self.note("C13.shutdown-commits", "C13.shutdown-success-without-commit", "shutdown() succeeded with last_processed_offset=%r but last_committed_offset=%r" % (c.last_processed_offset, c.last_committed_offset))
             elif c.last_processed_offset is not None:
                 stored = self.cluster.offsets.get((GROUP, TOPIC, 0), (None, None))[0]
-                if stored != c.last_processed_offset:
+                # a commit the consumer abandoned (stop() cancelled it, or it timed out) may still have been applied by the
+                # coordinator: its outcome is unknown to the consumer, and a value it left in the store is not shutdown()'s doing
+                unknown = set()
+                for e in self.cluster.commit_log:
+                    if e["code"] != 0 or e["group"] != GROUP:
+                        continue
+                    recs = [x for x in self.commit_writes if x["corr"] == e["reply"].get("corr") and x["conn"] is e["conn"]]
+                    rep = e["reply"]
+                    got = False
+                    for x in recs:
+                        r0 = x["run"]
+                        if rep.get("deliv_evseq") is not None and rep["deliv_time"] < x["time"] + self.timeout - 1e-9 and (r0 is None or r0.get("stopped_evseq") is None or rep["deliv_evseq"] < r0["stopped_evseq"] or r0 is run):
+                            got = True
+                    if not got:
+                        unknown.add(e["offset"])
+                if stored != c.last_processed_offset and stored in unknown:
+                    self.labels.add("store-holds-a-commit-of-unknown-fate")
+                elif stored != c.last_processed_offset:
                     self.note("C13.shutdown-commits", "C13.shutdown-store-disagrees", "shutdown() succeeded with last_processed_offset=%r; the coordinator stores %r" % (c.last_processed_offset, stored))
         if run.get("stopped_evseq") is None:
             # shutdown stops the consumer
